@@ -295,6 +295,16 @@ def vec_method(name, c):
             if n < len(v.cells): del v.cells[n:]
             return unit()
         if name == "clear": del v.cells[:]; return unit()
+        if name in ("dedup", "dedup_by_key"):
+            out = []
+            for cc in v.cells:
+                x, y = (out[-1].v, cc.v) if out else (None, None)
+                if out and name == "dedup_by_key":
+                    x, y = I.call_value(a[1], [Ref(out[-1])]), I.call_value(a[1], [Ref(cc)])
+                if out and I.E.branch(key_eq(I, x, y), "dedup"): continue
+                out.append(cc)
+            v.cells[:] = out
+            return unit()
         if name in ("reserve", "shrink_to_fit", "reserve_exact", "shrink_to"): return unit()
         if name == "resize":
             n = a[1]
